@@ -1,5 +1,7 @@
 import ElaVerif.Model.Node
 import ElaVerif.Lemmas.Node
+import ElaVerif.Lemmas.NodeValid
+import ElaVerif.Gen.C12
 /-!
   C12 — the node follows the most-work valid chain.
 
@@ -54,6 +56,14 @@ theorem C12_failed_switch_false :
 example : (processBlock S4 B3).1.tip.id = 4 ∧ (processBlock S4 B3).1.tip.height = 1 ∧ S4.tip.height = 2 := by decide
 
 /-! ### what does hold -/
+
+/-- **C12 (the active chain is valid).** After any history of deliveries and submissions every
+    block of the active chain has passed the context check against the replay of the chain below
+    it — also after a failed switch. -/
+theorem C12_active_chain_valid (P : Params) (g : Block) (ops : List Op) :
+    StackValid P (run (initState P g) ops).gledger (run (initState P g) ops).active :=
+  (valid_run P _ ops (valid_init P g)).2
+
 
 /-- a block that merely extends the tip and fails leaves the state untouched -/
 theorem C12_failed_extend_keeps_state (s : NState) (b : Block) (h : (extendTip s b).2 = .err) :
@@ -129,5 +139,20 @@ theorem C12_side_step (s : NState) (b : Block) :
         by_cases h3 : (reorganize s (reorgPlan s b).1 (reorgPlan s b).2).2 = true
         · simp [h3] at h
         · simp [h3] at h
+
+/-! ### tie to the source: branches are compared by cumulative work
+
+  On regnet instant-block parameters every block carries the same work, so the model compares
+  heights and the differential run cannot tell "most work" from "longest". That the code compares
+  `WorkSum` (formed as parent's sum + `CalcWork(bits)`) is a regenerated fact. -/
+theorem C12_gen_work_comparison :
+    Gen.C12.connectBestChainConds =
+      ["b.BestChain == nil || (node.Parent.Hash.IsEqual(*b.BestChain.Hash))", "err != nil", "err != nil",
+       "node.Parent != nil", "node.WorkSum.Cmp(b.BestChain.WorkSum) <= 0", "fork.InMainChain",
+       "fork.Hash.IsEqual(*node.Parent.Hash)",
+       "b.state.IsIrreversible(b.BestChain.Height, detachNodes.Len())", "err != nil"] ∧
+    Gen.C12.workSumUpdates = ["newNode.WorkSum.Add(prevNode.WorkSum, newNode.WorkSum)"] ∧
+    Gen.C12.workSumInit = ["CalcWork(header.Bits)"] := by
+  refine ⟨by decide, by decide, by decide⟩
 
 end ElaVerif.C12
